@@ -21,6 +21,8 @@ def run_case(case, acc, order):
     spec = {'n_spikes': len(sc), 'n_templates': nt, 'n_channels': 3, 'spike_templates': ST[:len(sc)],
             'spike_clusters': list(sc), 'id_dtype': idt, 'raw': False, 'features': 'absent',
             'tfeatures': 'absent', 'fill': case.get('fill', 0)}
+    if case.get('alf'):
+        spec['naming'] = 'alf'      # spikes.templates / spikes.clusters: each vector from its own file
     if case.get('no_cluster_file'):
         # the dataset has no cluster file: the clusters start as (a copy of) the templates
         spec['spike_clusters'] = 'absent'
@@ -115,7 +117,7 @@ def explore(ctx):
                 if len(set(STS[tk][1][:n])) < 2:
                     continue
                 cases.append({'clusters': list(sc), 'id_dtype': ['int32', 'uint32', 'int64'][i % 3],
-                              'fill': ctx.seed, 'templates': tk})
+                              'fill': ctx.seed, 'templates': tk, 'alf': i % 4 == 1})
             i += 1
     for n in (4, 5):
         for tk in ('all-used', 'middle-unused', 'top-unused'):
